@@ -9,7 +9,11 @@ the reported figures (summary CSV, console) are compared with the extent the pla
 Live-range stage (harness/liverange_lib.py, design.d/LiveRange.md) on the same compilations: the Lean model of
 live_range.py (Model/LiveRange.lean, theorems in Props/C12LiveRange.lean) must reproduce every LiveRangeGraph the
 scheduler and tensor allocation extract, and the Lean Spec (Spec/LiveRange.lean) judges the real arena ranges against
-every access of the high-level command streams and CPU passes."""
+every access of the high-level command streams and CPU passes.
+Serialisation stage (harness/serial_lib.py, design.d/Serialise.md) on the same compilations: the Lean model of npu_serialisation.py and of
+the reported memory figures (Model/Serialise.lean, Model/Reported.lean, theorems in Props/C12Serial.lean) must reproduce the memory
+tensors, the operand order of the call operators and the CSV / console figures; the Lean Spec (Spec/Serialise.lean) judges the
+constants tensor, the scratch tensors and the operand order of the OUTPUT FILE against the source constants and Vela's tensors."""
 import csv
 import io
 import re
@@ -22,6 +26,7 @@ import liverange_lib
 import pipe_common
 import pipeline
 import sched_lib
+import serial_lib
 from common import Check, main_wrapper
 
 
@@ -80,7 +85,8 @@ def arena_line(model, align, plan_buffer=None):
 
 def main():
     ck = Check("C12", "translation_validation")
-    ck.lean_stage(["VelaVerif.Props.C12", "VelaVerif.Props.C12LiveRange", "VelaVerif.Props.C12InPlace", "VelaVerif.Props.C12Sched"])
+    ck.lean_stage(["VelaVerif.Props.C12", "VelaVerif.Props.C12LiveRange", "VelaVerif.Props.C12InPlace", "VelaVerif.Props.C12Sched",
+                   "VelaVerif.Props.C12Serial"])
     n = 6000 if ck.thorough else 320
     # gen2:<p> = the OUTPUT of profile <p> compiled again (same or other options), sometimes a third time (harness/regen.py):
     # the final file must still carry ONE plan, and that plan must still cover what the passed-through Ethos-U operators touch
@@ -91,17 +97,18 @@ def main():
     inplace_lib.install()        # ... of extract_npu_subgraphs and _get_ifm_to_fuse (design.d/InPlace.md)
     inplace_lib.install_profile()
     sched_lib.install()          # ... of the Scheduler / CascadeBuilder memory bookkeeping (design.d/SchedMem.md)
-    if sched_lib.replay(ck):
+    serial_lib.install(every=4 if ck.thorough else 1)         # ... of npu_serialisation / allocate_tensors / the weight encoder (design.d/Serialise.md)
+    if sched_lib.replay(ck) or serial_lib.replay(ck):
         return
     ip_stub_stats = inplace_lib.stage(ck, [], prefix="inplace_stub_", compiled=False)     # function level first
-    outs = pipe_common.run_corpus(ck, n, profiles=profiles, want={"out_model": True, "extra": sched_lib.extra_c12},
+    outs = pipe_common.run_corpus(ck, n, profiles=profiles, want={"out_model": True, "extra": serial_lib.extra_c12},
                                   corpus_first=False, sweep=True)
     if ck.replay_arg is None:
         # boundary shapes of the in-place decision chain (harness/inplace_nets.py): every variant once (4x thorough)
         import inplace_nets
 
         outs += pipe_common.run_corpus(ck, inplace_nets.n_variants() * (4 if ck.thorough else 1), profiles=["inplace"],
-                                       want={"out_model": True, "extra": sched_lib.extra_c12},
+                                       want={"out_model": True, "extra": serial_lib.extra_c12},
                                        corpus_first=False, sweep=False)
         # second generation (design.d/History.md): in addition, the population above is unchanged
         outs += pipe_common.run_corpus(ck, n // 4, profiles=gen2_profiles,
@@ -237,11 +244,15 @@ def main():
         sched_outs += sched_lib.stub_builder(ck.rng, 5000 if ck.thorough else 500)
         sched_outs += sched_lib.stub_tusage(ck.rng, 2000 if ck.thorough else 200)
     sc_stats = sched_lib.stage(ck, outs + sched_outs)
+    # generated tensors / subgraph descriptions through the real copy functions and the real serialiser (function level)
+    serial_stub = serial_lib.stub(serial_lib.stub_rng(ck.seed), 20000 if ck.thorough else 2000) if ck.replay_arg is None else []
+    se_stats = serial_lib.stage(ck, outs + sched_outs + serial_stub)
     ck.finish({
         **lr_stats,
         **ip_stub_stats,
         **ip_stats,
         **sc_stats,
+        **se_stats,
         "programs": programs,
         "disagreements_checked": rejected,
         "evaluations": len(outs),
@@ -253,7 +264,10 @@ def main():
                 "sched_model_requests = calls of the modelled scheduler functions (build_cascades, optimize_sub_schedule, "
                 "get_temporal_memory_usage, use_fast_storage_for_feature_maps, propose_operator_buffering, ...) on the compilations "
                 "of this check and of the cascade-heavy corpus harness/sched_nets.py; sched_spec_requests = Lean Spec verdicts on "
-                "the real values of those calls",
+                "the real values of those calls. serial_model_requests = one `serial` and one `reported` request per compilation that "
+                "reaches the serialiser (model of npu_serialisation.py / of the reported memory figures = real, digests of every placed "
+                "range of the constants tensor) + generated calls of the real copy functions / serialiser; serial_spec_requests = Lean "
+                "Spec verdicts on the constants tensor, scratch tensors and operand order of the output file and on the reported figures",
         "exhaustive": False,
     }, assumptions=["liveness is taken from the operator order of the output graph; an input dying at and an output born at the same "
                     "Ethos-U operator may share bytes (ordering inside the stream is C03's subject)",
@@ -261,7 +275,10 @@ def main():
                     "live ranges: time has the granularity of live_range.py (one index per scheduled operation outside a cascade, "
                     "per cascade, per CPU pass; two ticks each); ordering inside one operation or one cascade is C03/C10's subject",
                     "live ranges: tensor identities, equivalence ids and the access list of the lrspec request are read from Vela's "
-                    "own objects (high-level commands, cascaded passes) in the harness process"])
+                    "own objects (high-level commands, cascaded passes) in the harness process",
+                    "serialisation: the source constants are the streams captured when encode_weight_and_scale_tensor returned them and "
+                    "the values of the constant feature maps of Vela's graph; addresses and storage sizes are read from Vela's tensors; "
+                    "the memory tensors of the output file are identified by their name suffix"])
 
 
 main_wrapper(main)
